@@ -42,9 +42,21 @@ def generate(repo):
     want = "ifalign==0{returnsize;}letrem=size%align;ifrem==0{returnsize;}size+align-rem"
     if norm != want:
         raise TranslateError("struct_layout.rs: align_to body changed: %s" % norm[:120])
+    # add_tail_padding: the early return compares with `>=` (no underflow of size - latest_offset)
+    atp = strip_comments(body_after(sl, r"pub\(crate\)\s+fn\s+add_tail_padding\s*\(", "bindgen/codegen/struct_layout.rs", opener="{"))
+    natp = re.sub(r"\s+", "", atp)
+    if "ifself.latest_offset>=comp_layout.size{" in natp:
+        guard_ge = True
+    elif "ifself.latest_offset==comp_layout.size{" in natp:
+        guard_ge = False
+    else:
+        raise TranslateError("struct_layout.rs: add_tail_padding: size guard not recognised")
+    if "letsize=comp_layout.size-self.latest_offset;" not in natp:
+        raise TranslateError("struct_layout.rs: add_tail_padding: `let size = comp_layout.size - self.latest_offset;` not found")
     return ("namespace BindgenModel.Generated.LayoutConsts\n\n"
             "def maxGuaranteedAlign : Nat := %d\n"
             "def arrayLimit : Nat := %d\n"
             "def knownSizes : List Nat := [%s]\n"
-            "def blobSmallAlignThreshold : Nat := %d\n\n"
-            "end BindgenModel.Generated.LayoutConsts\n" % (max_align, limit, ", ".join(map(str, sizes)), thr))
+            "def blobSmallAlignThreshold : Nat := %d\n"
+            "def tailPaddingGuardIsGe : Bool := %s\n\n"
+            "end BindgenModel.Generated.LayoutConsts\n" % (max_align, limit, ", ".join(map(str, sizes)), thr, "true" if guard_ge else "false"))
